@@ -192,7 +192,7 @@ func vf24CheckAuth(o *object.Object, pfx string) []string {
 			return []string{pfx + "session-token-signature-invalid"}
 		}
 		if tok.Issuer() != o.Owner() {
-			return []string{pfx + "session-issuer-is-not-owner"}
+			return []string{pfx + "session-issuer-is-not-owner" + vf24LegacyMark(o)}
 		}
 		if tsig, ok := tok.Signature(); ok {
 			if u, _, ok := vf24PubUser(tsig.PublicKeyBytes()); !ok || u != tok.Issuer() {
@@ -207,9 +207,46 @@ func vf24CheckAuth(o *object.Object, pfx string) []string {
 		return nil
 	}
 	if signerUser != o.Owner() {
-		return []string{pfx + "signer-is-not-owner"}
+		return []string{pfx + "signer-is-not-owner" + vf24LegacyMark(o)}
 	}
 	return nil
+}
+
+// vf24LegacyHeaderMark is appended to the two "principal is not the owner" clauses when the
+// header they were found in declares an API version 2.7..2.17.  The statement knows no
+// versions, so the clause is broken all the same; the mark only lets the caller tell these
+// headers apart (see vf24JudgeStored).
+const vf24LegacyHeaderMark = "@pre-2.18-header"
+
+func vf24LegacyVersion(o *object.Object) bool {
+	v := o.Version()
+	return v != nil && v.Major() == 2 && v.Minor() >= 7 && v.Minor() < 18
+}
+
+func vf24LegacyMark(o *object.Object) string {
+	if vf24LegacyVersion(o) {
+		return vf24LegacyHeaderMark
+	}
+	return ""
+}
+
+// vf24JudgeStored splits the clauses a stored object breaks into judged and not judged ones.
+// Not judged: "principal is not the owner" in a header of API version 2.7..2.17 that arrived
+// by REPLICATION.  The node tolerates that on purpose (pkg/core/version: objects below 2.18
+// "may have a mismatching owner due to a bug that allowed creating such objects, so they
+// should not be rejected"; such objects exist in the network and must stay replicable), and
+// the statement does not speak about versions at all, so the monitor does not constrain the
+// replication of old objects.  Everything a CLIENT offers is judged by the letter of the
+// statement whatever version its headers declare (the node refuses pre-2.18 headers there).
+func vf24JudgeStored(bad []string, path string) (judged, notJudged []string) {
+	for _, b := range bad {
+		if path == "replica" && strings.HasSuffix(b, vf24LegacyHeaderMark) {
+			notJudged = append(notJudged, b)
+		} else {
+			judged = append(judged, b)
+		}
+	}
+	return
 }
 
 func vf24CheckECPart(o *object.Object, ecRules []iec.Rule) []string {
@@ -511,9 +548,10 @@ func TestVerif_C24(t *testing.T) {
 	defer r.Finish()
 	nPrepared := r.Pick(3000, 200000)
 	nSlicer := r.Pick(1200, 60000)
-	r.SetRule(fmt.Sprintf("%d prepared-object cases: a valid object (regular, session-signed, tombstone, lock, v2 split first/middle/last/link with nested parent header, EC part) or a single-field mutant (ID bit, header field, checksum, declared size +-, payload byte, truncated/overlong stream, signature bytes/wrong key/missing, session token auth key/signature bytes/issuer/signed by a non-issuer with identical body/body changed under the old signature, attribute duplicate/empty/NUL, EC rule/part index, EC part length, EC part hash, parent header ID/signature/attributes) is offered through Streamer.Init/SendChunk/Close in a seeded chunking or through ValidateAndStoreObjectLocally (replication); half of the cases are histories: 2..5 offers (the valid object and independent single-field mutants of it, sharing owner, keys, session token body and parent headers) go to the same node in seeded order, every offer judged alone; %d slicer cases: unprepared objects (owner key or owner-issued session) of 0..4x the object size limit streamed in seeded chunkings with 0..2 transient local write failures; the oracle validates every object that reaches the recording local storage and, for successful slicer PUTs, reassembles the stored pieces; distinct = (path, object kind, mutation, outcome)", nPrepared, nSlicer))
+	r.SetRule(fmt.Sprintf("%d prepared-object cases: a valid object (regular, session-signed, tombstone, lock, v2 split first/middle/last/link with nested parent header, v1 (split ID) last member with finished parent header, EC part) or a single-field mutant (ID bit, header field, checksum, declared size +-, payload byte, truncated/overlong stream, signature bytes/wrong key/missing, session token auth key/signature bytes/issuer/signed by a non-issuer with identical body/body changed under the old signature, attribute duplicate/empty/NUL, EC rule/part index, EC part length, EC part hash, parent header ID/signature/attributes, parent/grandparent header sealed by a non-owner; where the authenticating principal of a header is made somebody else than the owner, that header also declares, in half of the cases, another API version: 2.7..2.17, none, or older than 2.7) is offered through Streamer.Init/SendChunk/Close in a seeded chunking or through ValidateAndStoreObjectLocally (replication); half of the cases are histories: 2..5 offers (the valid object and independent single-field mutants of it, sharing owner, keys, session token body and parent headers) go to the same node in seeded order, every offer judged alone; %d slicer cases: unprepared objects (owner key or owner-issued session) of 0..4x the object size limit streamed in seeded chunkings with 0..2 transient local write failures; the oracle validates every object that reaches the recording local storage and, for successful slicer PUTs, reassembles the stored pieces; distinct = (path, object kind, mutation, outcome)", nPrepared, nSlicer))
 	r.Assume("Server.Replicate delegates object validation to putsvc.Service.ValidateAndStoreObjectLocally, which is what is driven here; request-level checks of Replicate (request signature, container membership) are outside C24")
-	r.Assume("only V1 session tokens are generated; split scheme v2 only (the node's slicer and the SDK produce v2)")
+	r.Assume("only V1 session tokens are generated; of the v1 split scheme only hand-made last members (the node's slicer and the SDK produce v2)")
+	r.Assume("not judged: 'signer / session issuer is not the owner' in a header of API version 2.7..2.17 that arrives by replication - the node tolerates it on purpose for objects created before 2.18 (pkg/core/version) and the statement does not speak about versions; such stores are counted (replicated_pre_2_18_header_with_foreign_owner_stored_not_judged). Through the client PUT path the clause is judged for every header whatever version it declares")
 	r.Assume("independent validator trusts the SDK's protobuf encoding and ECDSA verification primitives")
 
 	cache := isessions.NewObjectSessionsCache(8)
@@ -528,6 +566,9 @@ func TestVerif_C24(t *testing.T) {
 	}
 	if r.Counter("history_invalid_sibling_offered_after_accepted_valid") == 0 || r.Counter("history_same_session_body_other_signature_after_accepted_valid") == 0 {
 		r.Inconclusive("no node was offered an invalid sibling of an object it had accepted before (history mode not exercised)")
+	}
+	if r.Counter("other_version_unauthenticated_nested_header_offered_client_stream") == 0 || r.Counter("other_version_unauthenticated_object_offered_client_stream") == 0 {
+		r.Inconclusive("no client offered an object / a nested parent header of another API version whose signer is not the owner (version dimension not exercised)")
 	}
 	if r.Counter("slicer_puts_reassembled") == 0 {
 		r.Inconclusive("no node-sliced upload was reassembled")
@@ -631,7 +672,7 @@ func vf24PreparedCase(r *verifkit.Run, cache *isessions.ObjectSessionsCache, idx
 	const maxObj = 2048
 	sc := vf24Scenario{Case: idx}
 
-	gens := []string{"regular", "regular", "session", "tombstone", "lock", "split-first", "split-middle", "split-last", "split-link", "ec-part", "ec-part", "ec-part-of-split"}
+	gens := []string{"regular", "regular", "session", "tombstone", "lock", "split-first", "split-middle", "split-last", "split-link", "split-v1-last", "ec-part", "ec-part", "ec-part-of-split"}
 	sc.Gen = gens[rng.IntN(len(gens))]
 	var ecRules []iec.Rule
 	partIdx := 0
@@ -716,6 +757,39 @@ func vf24PreparedCase(r *verifkit.Run, cache *isessions.ObjectSessionsCache, idx
 		case "split-link":
 			in.obj = col.objs[len(col.objs)-1]
 		}
+		in.signer = chainSigner
+		parentSigner = chainSigner
+	case "split-v1-last":
+		// last member of a v1 (split ID) chain made by the client: carries the finished,
+		// signed parent header; optionally within an owner-issued session
+		chainSigner := ownerSigner
+		var tok *session.Object
+		if rng.IntN(3) == 0 {
+			sessKey = vf24Key(rng)
+			t := vf24SessionToken(rng, env.cnrID, ownerSigner, sessKey)
+			tok = &t
+			chainSigner = vf24Signer(rng, sessKey)
+			sc.Gen += "+session"
+		}
+		limit := 256 + rng.IntN(512)
+		pl := verifkit.RandBytes(rng, limit*2+1+rng.IntN(limit))
+		parent := vf24Base(rng, env.cnrID, owner, pl)
+		if tok != nil {
+			parent.SetSessionToken(tok)
+		}
+		vf24Seal(&parent, chainSigner)
+		last := pl[len(pl)-1-rng.IntN(limit):]
+		in.obj = vf24Base(rng, env.cnrID, owner, bytes.Clone(last))
+		if tok != nil {
+			in.obj.SetSessionToken(tok)
+		}
+		sid := verifkit.RandBytes(rng, 16)
+		sid[6], sid[8] = sid[6]&0x0f|0x40, sid[8]&0x3f|0x80 // UUID v4, as the wire decoder demands
+		in.obj.SetSplitID(object.NewSplitIDFromV2(sid))
+		in.obj.SetPreviousID(verifkit.RandOID(rng))
+		in.obj.SetParent(parent.CutPayload())
+		in.obj.SetParentID(parent.GetID())
+		vf24Seal(&in.obj, chainSigner)
 		in.signer = chainSigner
 		parentSigner = chainSigner
 	case "ec-part":
@@ -929,8 +1003,24 @@ func vf24PreparedCase(r *verifkit.Run, cache *isessions.ObjectSessionsCache, idx
 			r.Violation("storage-binary|"+st.Path, "binary handed to local storage: "+binBad, sc)
 		}
 		for _, s := range stored {
-			if bad := vf24Check(&s.obj, ecRules); len(bad) > 0 {
+			bad, notJudged := vf24JudgeStored(vf24Check(&s.obj, ecRules), st.Path)
+			if len(bad) > 0 {
 				r.Violation(fmt.Sprintf("stored-invalid|%s|%s|%s|%s%s", st.Path, sc.Gen, mut, bad[0], after), fmt.Sprintf("node stored object %s that breaks: %v (input broke: %v; result of the operation: %v; offer #%d of %d to this node)", s.obj.GetID(), bad, st.Expected, err, step+1, nSteps), sc)
+			}
+			if len(notJudged) > 0 {
+				// deliberate tolerance of the node for replicated pre-2.18 objects: observed, not judged
+				r.Count("replicated_pre_2_18_header_with_foreign_owner_stored_not_judged", 1)
+				r.Seen("not_judged_clauses", notJudged[0])
+			}
+		}
+		if vf24HasVersionVariant(mut) && len(st.Expected) > 0 {
+			nested := "object"
+			if strings.Contains(mut, "parent") {
+				nested = "nested_header"
+			}
+			r.Count("other_version_unauthenticated_"+nested+"_offered_"+strings.ReplaceAll(st.Path, "-", "_"), 1)
+			if len(stored) == 0 {
+				r.Count("other_version_unauthenticated_"+nested+"_rejected_"+strings.ReplaceAll(st.Path, "-", "_"), 1)
 			}
 		}
 		switch {
@@ -1000,25 +1090,35 @@ func vf24Mutate(rng *rand.Rand, in *vf24Input, stream *[]byte, ecRules []iec.Rul
 	muts := []string{"id-bit", "header-field", "checksum", "size-more", "size-less", "payload-byte", "stream-short", "stream-long",
 		"attr-duplicate", "attr-empty", "attr-nul-key", "attr-nul-value"}
 	if o.Signature() != nil {
-		muts = append(muts, "sig-bytes", "sig-wrong-key", "sig-none")
+		muts = append(muts, "sig-bytes", "sig-wrong-key", "sig-none", "sig-wrong-key")
 	}
 	if sessKey != nil && o.SessionToken() != nil {
 		muts = append(muts, "session-authkey", "session-signature", "session-issuer", "session-authkey", "session-issuer",
 			"session-signed-by-stranger", "session-signed-by-subject", "session-body-resigned-by-nobody", "session-signature")
 	}
 	if in.gen == "ec-part-last" {
-		muts = append(muts, "grandparent-id", "grandparent-signature", "grandparent-id", "grandparent-signature")
+		muts = append(muts, "grandparent-id", "grandparent-signature", "grandparent-id", "grandparent-signature", "grandparent-signed-by-stranger", "grandparent-signed-by-stranger")
 	}
 	if in.gen == "ec-part" || in.gen == "ec-part-last" {
-		muts = append(muts, "ec-rule-idx", "ec-part-idx", "ec-part-length", "ec-part-hash", "ec-parent-id", "ec-parent-signature", "ec-parent-attr", "ec-rule-idx", "ec-part-hash")
+		muts = append(muts, "ec-rule-idx", "ec-part-idx", "ec-part-length", "ec-part-hash", "ec-parent-id", "ec-parent-signature", "ec-parent-attr", "ec-rule-idx", "ec-part-hash", "ec-parent-signed-by-stranger", "ec-parent-signed-by-stranger")
 	}
 	if split && in.gen != "split-first" && in.gen != "split-middle" {
 		muts = append(muts, "parent-id", "parent-signature", "parent-attr", "parent-id", "parent-signature")
 		if sessKey != nil {
-			muts = append(muts, "parent-session-signature", "parent-session-signed-by-stranger", "parent-session-issuer", "parent-session-signature", "parent-session-signed-by-stranger")
+			muts = append(muts, "parent-session-signature", "parent-session-signed-by-stranger", "parent-session-issuer", "parent-session-signature", "parent-session-signed-by-stranger", "parent-session-issuer", "parent-session-issuer")
+		} else {
+			muts = append(muts, "parent-signed-by-stranger", "parent-signed-by-stranger", "parent-signed-by-stranger")
 		}
 	}
 	m := muts[rng.IntN(len(muts))]
+	// Version dimension.  Mutations that make somebody else than the owner the authenticating
+	// principal of a header (its signature and token are all genuine, only they are not the
+	// owner's) additionally come with that header declaring another API version: the
+	// statement's demand does not depend on it, the node's checks do.
+	variant := ""
+	withVariant := func(h *object.Object) {
+		variant = vf24VersionVariant(rng, h)
+	}
 	switch m {
 	case "id-bit":
 		id := o.GetID()
@@ -1074,6 +1174,9 @@ func vf24Mutate(rng *rand.Rand, in *vf24Input, stream *[]byte, ecRules []iec.Rul
 		sig.SetValue(v)
 		o.SetSignature(&sig)
 	case "sig-wrong-key":
+		if withVariant(o); variant != "" {
+			_ = o.CalculateAndSetID()
+		}
 		_ = o.Sign(vf24Signer(rng, vf24Key(rng)))
 	case "sig-none":
 		o.SetSignature(nil)
@@ -1124,6 +1227,38 @@ func vf24Mutate(rng *rand.Rand, in *vf24Input, stream *[]byte, ecRules []iec.Rul
 			_ = tok.Sign(vf24Signer(rng, vf24Key(rng)))
 		}
 		o.SetSessionToken(&tok)
+		withVariant(o)
+		reseal()
+	case "parent-signed-by-stranger", "ec-parent-signed-by-stranger":
+		// the final parent header names the owner but is sealed (ID and a verifying
+		// signature) by somebody else; the member / part itself stays genuine
+		par := vf24CloneParent(o)
+		if par.Signature() == nil {
+			return "none"
+		}
+		withVariant(par)
+		if variant != "" && !split && rng.IntN(2) == 0 {
+			o.SetVersion(par.Version()) // EC: part and parent of the same (other) version
+			variant += "-of-part-too"
+		}
+		vf24Seal(par, vf24Signer(rng, vf24Key(rng)))
+		o.SetParent(par)
+		if !o.GetParentID().IsZero() || split {
+			o.SetParentID(par.GetID())
+		}
+		reseal()
+	case "grandparent-signed-by-stranger":
+		par := vf24CloneParent(o)
+		gp := vf24CloneParent(par)
+		if gp.Signature() == nil {
+			return "none"
+		}
+		withVariant(gp)
+		vf24Seal(gp, vf24Signer(rng, vf24Key(rng)))
+		par.SetParent(gp)
+		par.SetParentID(gp.GetID())
+		vf24Seal(par, ownerSigner)
+		o.SetParent(par)
 		reseal()
 	case "ec-rule-idx":
 		vf24SetAttr(o, "__NEOFS__EC_RULE_IDX", strconv.Itoa(len(ecRules)+rng.IntN(3)))
@@ -1190,6 +1325,7 @@ func vf24Mutate(rng *rand.Rand, in *vf24Input, stream *[]byte, ecRules []iec.Rul
 			_ = tok.SetSignature(vf24Signer(rng, vf24Key(rng)))
 		case "parent-session-issuer":
 			_ = tok.Sign(vf24Signer(rng, vf24Key(rng)))
+			withVariant(par)
 		}
 		par.SetSessionToken(&tok)
 		vf24Seal(par, parentSigner)
@@ -1227,7 +1363,36 @@ func vf24Mutate(rng *rand.Rand, in *vf24Input, stream *[]byte, ecRules []iec.Rul
 		o.SetParent(par)
 		reseal()
 	}
-	return m
+	return m + variant
+}
+
+// vf24VersionVariant makes the header declare another API version in half of the calls:
+// mostly one below 2.18 (2.17 most often), sometimes none at all or one older than NeoFS
+// itself.  Returns the suffix for the mutation name ("" = version untouched).
+func vf24VersionVariant(rng *rand.Rand, h *object.Object) string {
+	if rng.IntN(2) == 0 {
+		return ""
+	}
+	switch rng.IntN(8) {
+	case 0:
+		h.SetVersion(nil)
+		return "+no-version"
+	case 1:
+		v := version.New(2, uint32(rng.IntN(7)))
+		h.SetVersion(&v)
+		return "+ancient-version"
+	default:
+		v := version.New(2, 17)
+		if rng.IntN(2) == 0 {
+			v = version.New(2, uint32(7+rng.IntN(11)))
+		}
+		h.SetVersion(&v)
+		return "+pre-2.18-version"
+	}
+}
+
+func vf24HasVersionVariant(mut string) bool {
+	return strings.Contains(mut, "-version")
 }
 
 // vf24PanicFrame names the function that panicked (first non-runtime frame after panic()).
